@@ -1,6 +1,7 @@
 package main
 
 import (
+	"hash/fnv"
 	"bytes"
 	"context"
 	"fmt"
@@ -283,10 +284,14 @@ var oblFileRe = regexp.MustCompile(`[^A-Za-z0-9_.#@\[\]-]+`)
 
 func oblFile(dir string, o *Obligation) string {
 	n := oblFileRe.ReplaceAllString(o.Name, "_")
-	if len(n) > 180 {
-		n = n[len(n)-180:]
+	if len(n) > 170 {
+		n = n[len(n)-170:]
 	}
-	return filepath.Join(dir, n+".smt2")
+	// distinct obligations can map to the same sanitised name (len(p)/32 and len(p)%32): a
+	// short hash of the full name keeps their files apart
+	h := fnv.New32a()
+	h.Write([]byte(o.Name))
+	return filepath.Join(dir, fmt.Sprintf("%s.%08x.smt2", n, h.Sum32()))
 }
 
 func (V *Verifier) solveOne(o *Obligation, opt solveOpts) {
